@@ -78,9 +78,10 @@ def find_witnesses(text: str, snaps: Optional[Dict[str, dict]]) -> List[Tuple[in
                 for _, kv in variants:
                     d = kv['default']
                     if d and any(c in d for c in NEEDS_ESCAPE):
-                        i = text.find(f' : "{d}"')     # the raw value, verbatim between quotes
-                        if i >= 0:
-                            out.append((i, 'value-written-unescaped'))
+                        # the raw value, verbatim between quotes, as a complete field of a keyvalue line
+                        m = re.search(re.escape(f' : "{d}"') + r'(?= : | =$|$)', text, re.M)
+                        if m:
+                            out.append((m.start(), 'value-written-unescaped'))
                     if kv['type'] == 'CHOICES':
                         for item in kv['val_list'] or []:
                             v = item[0]
